@@ -36,7 +36,7 @@ def section_index():
     entries_inf = [0, 2, slice(None, 3), slice(1, 3), slice(None, 3, 2), [0, 2], [2, 0], [1, 1], [3], np.int64(2), [], slice(np.int64(1), np.int64(3))]
     bad_inf = [-1, slice(None), slice(None, -1), [-1, 1], slice(-1, 2), np.int64(-1), slice(np.int64(-2), 3), slice(None, np.int64(-1)), np.array([0, -1])]
     BOX = 5
-    for shape, ninf in (((2,), 1), ((2,), 2), ((2, 3), 1), ((), 1), ((2, 3), 2)):
+    for shape, ninf in (((2,), 1), ((2,), 2), ((2, 3), 1), ((), 1), ((2, 3), 2), ((2, 3, 2), 1)):      # three finite dimensions: lists between slices
         def is_zero(idx):
             return sum(idx) % 4 == 3
 
@@ -93,7 +93,7 @@ def section_index():
         # finite-dimension-only indices: a view (BlockSeries over the remaining finite shape numpy gives) with the same elements, evaluated through the parent once
         if shape:
             fin_view = [entries_fin + [[1, 0, 1], np.int64(1)] if d > 1 else [0, slice(None), [0]] for d in shape]
-            if len(shape) == 2:
+            if len(shape) >= 2:
                 fin_view[1] = fin_view[1] + [[2, 0], [1, 1, 0]]
             for item in itertools.product(*fin_view):
                 try:
@@ -629,6 +629,47 @@ def section_lazy():
             H[o]
         if len(set(log)) != len(log):
             fail("lazy", "Hamiltonian term evaluated again when the caller reads the series it passed in", hermitian=hermitian, variant=str(var))
+    _lazy_secondq()
+
+
+def _lazy_secondq():
+    """second-quantized (operator-valued) lazily defined Hamiltonians with two parameters: scalar expressions and matrix-valued terms split by subspace_indices"""
+    global cases
+    import sympy as _sp
+    from sympy.physics.quantum import Dagger as _Dg
+    from sympy.physics.quantum.boson import BosonOp as _Bos
+    from pymablock import block_diagonalize
+    a, b = _Bos("a"), _Bos("b")
+    w, wb, dl = _sp.symbols("omega omega_b Delta", positive=True)
+    problems = {
+        "two boson modes": ({(0, 0): w * _Dg(a) * a + wb * _Dg(b) * b, (1, 0): _Dg(a) * b + _Dg(b) * a, (0, 1): _Dg(a) + a, (2, 0): _Dg(b) * b, (1, 1): _Dg(b) + b}, {},
+                            [(0, (0, 0), (2, 0)), (0, (0, 0), (0, 2)), (1, (0, 0), (1, 1))]),
+        "spin coupled to a boson mode": ({(0, 0): _sp.Matrix([[w * _Dg(a) * a, 0], [0, w * _Dg(a) * a + dl]]), (1, 0): _sp.Matrix([[0, a], [_Dg(a), 0]]),
+                                          (0, 1): _sp.Matrix([[_Dg(a) + a, 0], [0, -_Dg(a) - a]]), (0, 2): _sp.Matrix([[_Dg(a) * a, 0], [0, 0]])}, {"subspace_indices": [0, 1]},
+                                         [(0, (0, 0), (2, 0)), (0, (1, 1), (0, 2)), (1, (0, 1), (1, 0))]),
+    }
+    for name, (terms, kw, requests) in problems.items():
+        cases += 1
+        log = []
+
+        def ev(*order, terms=terms, log=log):
+            log.append(tuple(int(x) for x in order))
+            return terms.get(tuple(int(x) for x in order), zero)
+        try:
+            H = BlockSeries(eval=ev, shape=(), n_infinite=2)
+            outs = block_diagonalize(H, **kw)
+            if any(sum(o) for o in log):
+                fail("lazy", "second-quantized input: defining the block diagonalization evaluated a non-zeroth-order Hamiltonian term", model=name, evaluated=log)
+            for which, blk, order in requests:
+                n0 = len(log)
+                outs[which][blk + order]
+                for m in log[n0:]:
+                    if not all(mi <= ri for mi, ri in zip(m, order)):
+                        fail("lazy", "second-quantized input: Hamiltonian term evaluated at an order not below the requested order", model=name, request=(which, blk, order), evaluated=m)
+                if len(set(log)) != len(log):
+                    fail("lazy", "second-quantized input: Hamiltonian term evaluated more than once", model=name, evaluated=log)
+        except Exception as e:  # noqa: BLE001
+            fail("lazy", "second-quantized lazily defined input raised", model=name, error=repr(e)[:300])
 
 
 def section_history():
